@@ -82,6 +82,9 @@ func (c *deployCommand) run(cmd *cobra.Command, args []string) error {
 }
 
 func (c *deployCommand) preRun(cmd *cobra.Command, args []string) error {
+	// Normalize turns "no hosts" into the single default host "", so remember
+	// whether any host was given before normalizing.
+	noHosts := len(c.args.ServiceOptions.Hosts) == 0
 	c.args.ServiceOptions.Normalize()
 
 	if cmd.Flags().Changed("max-request-body") && !cmd.Flags().Changed("buffer-requests") {
@@ -97,7 +100,7 @@ func (c *deployCommand) preRun(cmd *cobra.Command, args []string) error {
 	}
 
 	if c.args.ServiceOptions.TLSEnabled {
-		if len(c.args.ServiceOptions.Hosts) == 0 {
+		if noHosts {
 			return fmt.Errorf("host must be set when using TLS")
 		}
 
